@@ -195,7 +195,7 @@ def run(ctx):
                         nonempty = any((a == T("empty", T("field", m, "absorbing")) and v is False) or
                                        (isinstance(a, tuple) and a[0] == "binop" and a[1] == "Gt" and a[2] == T("len", T("field", m, "absorbing")) and v is True) for a, v in g)
                         ck.ob("C08-R4", ANM, "absorbing_trigger:=pressed-key-iff-the-mapping-absorbs-something", vok and nonempty, site=e.ev.span)
-    ck.ob("C08-R4", "-", "mapped_absorbed_keys-writers", {kk: sorted(v) for kk, v in ab_w.items()} == {ANM: ["ADD"], NP: ["RETAIN"], RAK: ["DRAIN"]},
+    ck.ob("C08-R4", "-", "mapped_absorbed_keys-writers", {kk: sorted("DRAIN" if x == "OTHERMUT:take" else x for x in v) for kk, v in ab_w.items()} == {ANM: ["ADD"], NP: ["RETAIN"], RAK: ["DRAIN"]},
           detail=str({kk[len(MOD):]: sorted(v) for kk, v in ab_w.items()}))
     ck.ob("C08-R4", "-", "absorbing_trigger-writers", set(at_w) == {ANM, RAK}, detail=str({kk[len(MOD):]: sorted(v) for kk, v in at_w.items()}))
     # paths of add_new_mapping with an empty absorbing list leave the trigger alone
@@ -213,15 +213,18 @@ def run(ctx):
     drained = None
     for fx in fnp:
         dr = [e for e in fx.effects if e.kind == "APPEND" and list_of(e.key) == "AB" and isinstance(e.lst, tuple)]
+        tk = [e for e in fx.effects if e.kind == "OTHERMUT:take" and e.lst == "AB"]    # std::mem::take(&mut mapped_absorbed_keys)
         cl = [e for e in fx.effects if e.kind == "STORE" and e.lst == "AT" and isinstance(e.key, tuple) and e.key[0] == "agg" and e.key[2] == "None"]
-        okd = okd and len(dr) == 1 and len(cl) == 1
+        okd = okd and len(dr) + len(tk) == 1 and len(cl) == 1
         if dr:
             drained = dr[0].lst
+        elif tk:
+            drained = ("taken", tk[0].ev.c)
     ck.ob("C08-R5", RAK, "drains-mapped_absorbed_keys-and-clears-the-trigger-on-every-path", okd)
     per_key = 0
     for h in sorted(rb.loops()):
         il = ktloops.index_loop(rb, h)
-        if il.kind == "for-elements" and list_of(il.list_term) == drained:
+        if il.kind == "for-elements" and (list_of(il.list_term) == drained or (isinstance(drained, tuple) and drained[0] == "taken" and mir.strip(il.list_term) == drained[1])):
             ok = il.complete and not il.break_paths
             ck.ob("C08-R5", RAK, "every-drained-key-is-processed", ok)
             x = il.elem
